@@ -23,21 +23,16 @@ REQUIRED_THEOREMS = [
     "TapkeeVerif.Dijkstra.ge_direct",
     "TapkeeVerif.Dijkstra.le_edge",
     "TapkeeVerif.Dijkstra.fuel_suffices",
-    "TapkeeVerif.Dijkstra.landmark_row_eq_full_row_lazy",
-    "TapkeeVerif.Dijkstra.landmark_row_eq_full_row_partial",
+    "TapkeeVerif.Dijkstra.landmark_row_eq_full_row",
+    "TapkeeVerif.Dijkstra.landmarkRows_ok",
     "TapkeeVerif.Dijkstra.rows_independent",
     "TapkeeVerif.Dijkstra.allPairs_schedule_independent",
     "TapkeeVerif.Dijkstra.isShortestPathMatrix_sound",
     "TapkeeVerif.IsomapPre.center_eq_JAJ",
-    "TapkeeVerif.IsomapPre.isomap_is_cmds_partial",
-    "TapkeeVerif.IsomapPre.isomap_is_cmds_with_symmetrise",
+    "TapkeeVerif.IsomapPre.isomap_is_cmds",
+    "TapkeeVerif.IsomapPre.isomapPre_symm",
+    "TapkeeVerif.IsomapPre.isomap_is_cmds_unrepaired_refuted",
 ]
-# statements that are false of the code as it stands: the refutation (witness checked by the kernel) is the obligation
-# until the defect is repaired; then the full theorem replaces it (see Props/C04.lean)
-REFUTED_WHILE_OPEN = {
-    "F-LISOMAP-FLAG": "TapkeeVerif.Dijkstra.landmark_row_eq_full_row_refuted",
-    "F-ISOMAP-ASYM": "TapkeeVerif.IsomapPre.isomap_is_cmds_refuted",
-}
 BUILDS = ["pq", "fib"]
 THREADS = [1, 2, 3, 8, 16]
 
